@@ -15,6 +15,8 @@
 (*                 what the checkpoint's leader held for that range when   *)
 (*                 it wrote the checkpoint (`tok` = known and complete)    *)
 (*   report.read   what the node's store returns for the range now         *)
+(*   report.cur    what the node's store holds for the range, as the node  *)
+(*                 handed it over (before any damage at rest)              *)
 (*   report.wrote  everything this incarnation handed to its store at the  *)
 (*                 indexes of the range (and the checkpoint's index)       *)
 (***************************************************************************)
@@ -135,7 +137,9 @@ Report ==
                          /\ T.truth[k][1] = 1 /\ T.truth[k][3] = CFG
             differs(k) == Core(Ev.read[k]) # Core(T.truth[k])
             cpok == T.tok /\ Core(Ev.cpread) = Core(T.cp)          \* the checkpoint entry itself is stored as its leader wrote it
-            eq == same /\ held /\ cpok /\ \A k \in 1..Len(Ev.read) : ~differs(k) \/ exempt(k)
+            stored(k) == Core(Ev.cur[k]) = Core(T.truth[k])           \* stored exactly as the leader wrote it ...
+            eq == same /\ held /\ cpok /\ Len(Ev.cur) = Len(Ev.read)  \* ... and read back unchanged
+                  /\ \A k \in 1..Len(Ev.read) : (stored(k) /\ ~differs(k)) \/ exempt(k)
             div == same /\ held /\ \E k \in 1..Len(Ev.read) : differs(k) /\ ~exempt(k)
             exm == same /\ held /\ \E k \in 1..Len(Ev.read) : differs(k) /\ exempt(k)
             wother == \/ ~T.tok
